@@ -4,6 +4,7 @@ package checks
 
 import (
 	"fmt"
+	"runtime"
 	"sync"
 	"time"
 
@@ -417,6 +418,52 @@ func C14(tier string) int {
 		run.HarnessErr = firstErr
 		return run.Finish()
 	}
+	// The routed sequences that contain a batch of two, once more with a single processor: util.Scatter then hands the
+	// whole batch to one worker (with more processors than entries every entry has a worker of its own).
+	oneProc := 0
+	{
+		old := runtime.GOMAXPROCS(1)
+		ids := []uint64{1, 2}
+		serial := 0
+		for _, pair := range c14Pairs() {
+			if pair.a.prop {
+				continue
+			}
+			c, err := rig.NewCluster(rig.ClusterOpts{IDs: ids})
+			if err != nil {
+				runtime.GOMAXPROCS(old)
+				run.HarnessErr = err
+				return run.Finish()
+			}
+			for _, seq := range c14RoutedSequences(false) {
+				hasBatch2 := false
+				for _, sym := range seq {
+					if r := symRoute(sym); r == routeBatch2Key || r == routeBatch2Last {
+						hasBatch2 = true
+					}
+				}
+				if !hasBatch2 || time.Now().After(deadline) {
+					continue
+				}
+				as := [][]int{seq, {}}
+				oc, probs, err := runAssignment(c, ids, 2, pair, as, &serial)
+				if err != nil {
+					runtime.GOMAXPROCS(old)
+					run.HarnessErr = err
+					return run.Finish()
+				}
+				cells++
+				oneProc++
+				outcomes[fmt.Sprintf("n=2,t=2,%s,GOMAXPROCS=1:%s", pair.name, oc)]++
+				for _, p := range probs {
+					run.Violate(fmt.Sprintf("%s:n=2:t=2:GOMAXPROCS=1:%s", pair.name, firstWords(p, 6)), fmt.Sprintf("n=2 t=2 %s, GOMAXPROCS=1, sequences %v (0 = first duty, 1 = second): %s", pair.name, as, p),
+						map[string]any{"check": "C14", "n": 2, "t": 2, "pair": pair.name, "sequences": as, "gomaxprocs": 1})
+				}
+			}
+			c.Close()
+		}
+		runtime.GOMAXPROCS(old)
+	}
 	fullN := 2
 	if tier == "thorough" {
 		fullN = 3
@@ -424,8 +471,9 @@ func C14(tier string) int {
 	run.Coverage = map[string]any{
 		"evaluations":          cells + schedExecs,
 		"distinct_nontrivial":  len(outcomes),
-		"rule":                 fmt.Sprintf("for every accepted (n,t) with n <= %d and every conflicting pair (double vote with same and with other source, surround, double proposal, and double votes / double proposal at the lowest legal values 0->0, 0->1, slot 0): every assignment of request sequences over the two duties to the instances (all 15 sequences of length <= 3 per instance for n <= %d, five representative sequences above), each on a freshly DKG-generated account on real instances; on a 2-of-2 account one instance additionally receives every sequence of length <= 2 over duty x route (single by name, single by share key, batch of one, batch of two after an approved companion, batch of two before a refused companion); per assignment no instance may release partial signatures for both duties, and real threshold recovery over every t-subset must not succeed for both duties; plus both duties delivered concurrently to one instance under the cooperative scheduler (preemption bound %d); distinct = (n,t,pair,outcome vector) classes", maxN, fullN, bound),
+		"rule":                 fmt.Sprintf("for every accepted (n,t) with n <= %d and every conflicting pair (double vote with same and with other source, surround, double proposal, and double votes / double proposal at the lowest legal values 0->0, 0->1, slot 0): every assignment of request sequences over the two duties to the instances (all 15 sequences of length <= 3 per instance for n <= %d, five representative sequences above), each on a freshly DKG-generated account on real instances; on a 2-of-2 account one instance additionally receives every sequence of length <= 2 over duty x route (single by name, single by share key, batch of one, batch of two after an approved companion, batch of two before a refused companion), the sequences containing a batch of two also with GOMAXPROCS=1 so that one Scatter worker handles the whole batch; per assignment no instance may release partial signatures for both duties, and real threshold recovery over every t-subset must not succeed for both duties; plus both duties delivered concurrently to one instance under the cooperative scheduler (preemption bound %d); distinct = (n,t,pair,outcome vector) classes", maxN, fullN, bound),
 		"samples":              samples.List(),
+		"routed_sequences_with_one_processor": oneProc,
 		"exhaustive":           !capped,
 		"assignments":          cells,
 		"scheduler_executions": schedExecs,
